@@ -91,12 +91,14 @@ func (s *segment) append(b []byte) {
 	size := s.size + len(b)
 	s.setOffset(size, s.n+2)
 	s.n, s.size = s.n+1, size
+	verifPoint("seg.append", s.file.Name(), s.n)
 }
 
 func (s *segment) removeGTE(i uint64) error {
 	n := int(i - s.prevIndex - 1)
 	if n < s.n {
 		s.setOffset(n, 0)
+		verifPoint("seg.removeGTE.header", s.file.Name(), n)
 		s.n, s.size, s.synced = n, s.offset(n+1), -1
 	}
 	return s.sync()
@@ -111,11 +113,14 @@ func (s *segment) sync() error {
 		if err := s.file.Sync(); err != nil {
 			return err
 		}
+		verifPoint("seg.sync.data", s.file.Name(), s.n)
 		s.setOffset(s.n, 0)
+		verifPoint("seg.sync.header", s.file.Name(), s.n)
 		if err := s.file.Sync(); err != nil {
 			return err
 		}
 		s.synced = s.n
+		verifPoint("seg.sync.done", s.file.Name(), s.n)
 	}
 	return nil
 }
@@ -134,7 +139,9 @@ func (s *segment) remove() error {
 
 func (s *segment) closeAndRemove() error {
 	err1 := s.close()
+	verifPoint("seg.remove.closed", s.file.Name())
 	err2 := s.remove()
+	verifPoint("seg.remove.done", s.file.Name())
 	if err1 != nil {
 		return err1
 	}
